@@ -101,7 +101,7 @@ def check_quote_wiring(ctx, inst, fn, pricing, key, reverse=False):
     return rate
 
 
-def run(ctx):
+def _run(ctx):
     P = ctx.P
     r1 = ctx.inst("C12.R1", "forward quote and swap call the same pricing function on corresponding arguments (reserve selection, amount, rate; response mapping)", floor=7)
     r2 = ctx.inst("C12.R2", "the commission rate items are written only at instantiation, from the same message field", floor=2)
@@ -333,3 +333,9 @@ def check_fold(ctx, inst, fold, qname, field, reverse):
             inst.fail("%s:early-exit" % inst.id, fold.path, common.span_of_block_term(fold, b), "a success exit is reachable before the whole route was folded")
         else:
             inst.site("result ⊢ running amount after the last hop")
+
+
+def run(ctx):
+    from .. import numeric
+    _run(ctx)
+    numeric.arith_base(ctx, "C12.B1")
